@@ -24,8 +24,8 @@ pub(crate) fn input_matches(mut input: Ref) -> io::Result<bool> {
 	// the first document in the stream encodes a collection (map or sequence).
 	let encoding = Encoding::detect(input.prefix(Encoding::DETECT_LEN)?);
 	let chunk = match &mut input {
-		Ref::Slice(b) => Chunker::new(Encoder::new(b, encoding)).next(),
-		Ref::Reader(r) => Chunker::new(Encoder::new(BufReader::new(r), encoding)).next(),
+		Ref::Slice(b) => Chunker::new(Encoder::new(strip_utf8_bom(b, &encoding), encoding)).next(),
+		Ref::Reader(r) => Chunker::new(Encoder::from_reader(BufReader::new(r))?).next(),
 	};
 	match chunk {
 		Some(Ok(doc)) => Ok(doc.is_collection()),
@@ -45,6 +45,10 @@ where
 			// ASCII-only text in UTF-16 or UTF-32 is also valid UTF-8 (with NUL
 			// characters), so validity alone does not identify the encoding.
 			Ok(s) if matches!(Encoding::detect(&b), Encoding::Utf8) => {
+				// The reader path drops a byte order mark from the start of
+				// the stream. Do the same here, so that what the input means
+				// does not depend on how it is supplied.
+				let s = s.strip_prefix('\u{FEFF}').unwrap_or(s);
 				for de in serde_yaml::Deserializer::from_str(s) {
 					output.transcode_from(de)?;
 				}
@@ -56,6 +60,15 @@ where
 				transcode_reader(&*b, output)
 			}
 		},
+	}
+}
+
+/// Returns the slice without its leading byte order mark, if it is UTF-8 text
+/// that has one.
+fn strip_utf8_bom<'a>(b: &'a [u8], encoding: &Encoding) -> &'a [u8] {
+	match encoding {
+		Encoding::Utf8 => b.strip_prefix(encoding::UTF8_BOM).unwrap_or(b),
+		_ => b,
 	}
 }
 
@@ -79,11 +92,11 @@ where
 	// YAML 1.2 requires this. In addition to our chunker, we implement a
 	// streaming encoder that can detect the encoding of any valid YAML stream
 	// and convert it to UTF-8. The encoder will also strip any byte order mark
-	// from the beginning of the stream, as serde_yaml will choke on it. This
-	// still doesn't cover the full YAML spec, which also allows BOMs in UTF-8
-	// streams and at the starts of individual documents in the stream.
-	// However, these cases should be much rarer than that of a single BOM at
-	// the start of a UTF-16 or UTF-32 stream.
+	// from the beginning of the stream (in any encoding, UTF-8 included), as
+	// serde_yaml will choke on it. This still doesn't cover the full YAML spec,
+	// which also allows BOMs at the starts of individual documents in the
+	// stream. However, that case should be much rarer than that of a single BOM
+	// at the start of the stream.
 	for doc in Chunker::new(Encoder::from_reader(input)?) {
 		let doc = doc?;
 		let de = serde_yaml::Deserializer::from_str(doc.content());
